@@ -85,6 +85,11 @@ CHECKS = {
                      'anywhere in the interleaving, configured timeouts may fire at any wait. z3 decides per scenario: no deadlock; consumers observe the producer exception (never a clean '
                      'end of stream, also when the queue is stopped and read again); no element twice; a stop request leaves no producer/consumer blocked (bounded buffer, batch consumer); '
                      'starved get/put end in TimeoutError. Quick: 2 threads; thorough: 3 threads.'),
+    'C13': dict(engine='pybmc', level='model_checking', design_ref='DESIGN.md#c13', note=BM_NOTE, technique=BM_TECH,
+                text='MultiplexIterator.__next__/maybe_stop, DequeueIterator (num_steps), IteratorQueue and _ThreadSafeIterator are compiled from source; pool workers are threads with '
+                     'arbitrary start delay, shutdown() is a join; queue constants come from running the real piter_fn/piter_multiplex wiring. z3 decides over all interleavings, '
+                     'symbolic early-stop and failure positions: shutdown always returns (no helper thread left blocked), outputs are the sequential multiset / exactly k on early '
+                     'stop / the input error reaches the caller. Quick: parallelism 1; thorough: parallelism 2, shared and independent inputs.'),
 }
 NA = {}
 PENDING = 'check not built yet (see DESIGN.md build order)'
